@@ -729,7 +729,9 @@ func c09ValidDocs(t *refcodec.Tx) map[string][]any {
 
 // c09Vocabulary: the keys either JSON dialect knows, for any kind of object
 var c09Vocabulary = []string{"lockingScript", "scriptPubKey", "satoshis", "value", "n", "unlockingScript", "scriptSig", "txid", "vout", "vin", "inputs", "outputs",
-	"hex", "sequence", "amount", "version", "lockTime", "locktime", "asm", "type", "hash", "size"}
+	"hex", "sequence", "amount", "version", "lockTime", "locktime", "asm", "type", "hash", "size",
+	// further keys the node itself writes into such documents
+	"coinbase", "reqSigs", "addresses", "confirmations", "blockhash", "height"}
 
 // mutations applied at every node of a valid document
 var c09Mutations = []struct {
@@ -1206,8 +1208,9 @@ func init() {
 							jd(c, &c09Doc{Entry: e.name, Doc: jrender(nd), Class: class})
 						}
 						empties := []any{jlit("null"), "", jobj{}, jarr{}, jlit("0")}
+						filled := []any{"04ffff001d0104", jlit("7")} // what the node writes under such keys: a hex string, a number
 						for _, k := range c09Vocabulary {
-							for _, v := range empties {
+							for _, v := range append(append([]any{}, empties...), filled...) {
 								put(append(jobj{{k, v}}, o...), "foreign-key")
 							}
 						}
@@ -1219,9 +1222,17 @@ func init() {
 								x := append(jobj{}, o...)
 								x[own] = jkv{o[own].k, ov}
 								for _, k := range c09Vocabulary {
-									for _, v := range empties[:2] {
+									for _, v := range append(append([]any{}, empties[:2]...), filled...) {
 										put(append(append(jobj{}, x...), jkv{k, v}), "foreign-key:own-key-emptied")
 									}
+								}
+							}
+							// the own key gone altogether, a filled foreign key in its place (a coinbase entry
+							// of the node has "coinbase" where other entries have "scriptSig")
+							x := append(append(jobj{}, o[:own]...), o[own+1:]...)
+							for _, k := range c09Vocabulary {
+								for _, v := range filled {
+									put(append(append(jobj{}, x...), jkv{k, v}), "foreign-key:own-key-removed")
 								}
 							}
 						}
